@@ -1,9 +1,11 @@
 package main
 
 import (
+	"encoding/json"
 	"fmt"
 	"math/rand"
 	"reflect"
+	"strings"
 
 	"github.com/reusee/sb"
 )
@@ -383,6 +385,103 @@ func typedEmbedded(repU *Report) {
 			repU.violate("C05", "conforming-rejected", fmt.Sprintf("a conforming stream was rejected: %v", e), desc)
 		case c.want != nil && got != *c.want:
 			repU.violate("C05", "field-not-matched-by-name", fmt.Sprintf("got %+v, want %+v", got, *c.want), desc)
+		}
+	}
+}
+
+// fields promoted through embedded POINTERS: a nil embedded pointer on the way to the named field is
+// allocated (as encoding/json does); one to an unexported struct type cannot be set and is an error, not a panic
+type EmbPtrInner struct {
+	X int
+	S string
+}
+type embPtrHidden struct{ Y int }
+type EmbPtrDeep struct{ *EmbPtrInner }
+type WithEmbPtr struct {
+	*EmbPtrInner
+	*embPtrHidden
+	Z int
+}
+type WithEmbPtrDeep struct {
+	*EmbPtrDeep
+	W int
+}
+
+func typedEmbeddedPtr(repU *Report) {
+	obj := func(fields ...sb.Token) []sb.Token {
+		return append(append([]sb.Token{tokK(sb.KindObject)}, fields...), tokK(sb.KindObjectEnd))
+	}
+	show := func(v any) string { b, _ := json.Marshal(v); return string(b) }
+	type tc struct {
+		name   string
+		target func() any
+		ts     []sb.Token
+		want   string // JSON image of the expected target; "" = must be rejected with an unmarshal error
+	}
+	cases := []tc{
+		{"nil embedded pointer is allocated", func() any { return &WithEmbPtr{} }, obj(tokS("X"), tokI(5)), `{"X":5,"S":"","Z":0}`},
+		{"embedded pointer stays nil when no promoted field is named", func() any { return &WithEmbPtr{} }, obj(tokS("Z"), tokI(2)), `{"Z":2}`},
+		{"non-nil embedded pointer is decoded in place", func() any { return &WithEmbPtr{EmbPtrInner: &EmbPtrInner{S: "keep"}} }, obj(tokS("X"), tokI(5)), `{"X":5,"S":"keep","Z":0}`},
+		{"two promoted fields share the allocated struct", func() any { return &WithEmbPtr{} }, obj(tokS("S"), tokS("a"), tokS("Z"), tokI(1), tokS("X"), tokI(9)), `{"X":9,"S":"a","Z":1}`},
+		{"embedded pointer to an unexported struct type", func() any { return &WithEmbPtr{} }, obj(tokS("Y"), tokI(1)), ""},
+		{"wrong kind for a field promoted through a pointer", func() any { return &WithEmbPtr{} }, obj(tokS("X"), tokS("five")), ""},
+		{"two levels of nil embedded pointers", func() any { return &WithEmbPtrDeep{} }, obj(tokS("W"), tokI(1), tokS("X"), tokI(7)), `{"X":7,"S":"","W":1}`},
+		{"the embedded field named by its type", func() any { return &WithEmbPtr{} }, obj(tokS("EmbPtrInner"), tokK(sb.KindObject), tokS("X"), tokI(4), tokK(sb.KindObjectEnd)), `{"X":4,"S":"","Z":0}`},
+	}
+	for _, c := range cases {
+		got := c.target()
+		e := guard(func() error { return copyBudget(tokensFrom(c.ts), sb.Unmarshal(got)) })
+		repU.Evaluations++
+		repU.count("c05:promoted-through-pointer")
+		desc := fmt.Sprintf("promoted through embedded pointer (%s): target=%T stream=[%s]", c.name, got, descTokens(c.ts))
+		switch {
+		case classOf(e) == "EPanic" || classOf(e) == "EDiverge":
+			repU.violate("C05", "unmarshal-panic", fmt.Sprintf("Unmarshal panicked: %v", e), desc)
+		case c.want == "" && e == nil:
+			repU.violate("C05", "mismatch-accepted", fmt.Sprintf("accepted: %s", show(got)), desc)
+		case c.want == "" && !isUnmarshalError(e):
+			repU.violate("C05", "not-an-unmarshal-error", fmt.Sprintf("%v", e), desc)
+		case c.want != "" && e != nil:
+			repU.violate("C05", "conforming-rejected", fmt.Sprintf("a conforming stream was rejected: %v", e), desc)
+		case c.want != "" && show(got) != c.want:
+			repU.violate("C05", "field-not-matched-by-name", fmt.Sprintf("got %s, want %s", show(got), c.want), desc)
+		}
+	}
+	// the same through the JSON front end, against encoding/json (C20)
+	for _, doc := range []string{`{"X":5,"Z":2}`, `{"Z":2}`, `{"S":"a","X":1}`, `{"W":3,"X":7}`, `{"EmbPtrInner":{"X":4}}`, `{"X":1,"X":2}`} {
+		for _, mk := range []func() any{func() any { return &WithEmbPtr{} }, func() any { return &WithEmbPtrDeep{} }} {
+			a, b := mk(), mk()
+			e := guard(func() error { return copyBudget(sb.DecodeJson(strings.NewReader(doc), nil), sb.Unmarshal(a)) })
+			je := json.Unmarshal([]byte(doc), b)
+			repU.Evaluations++
+			repU.count("c20:promoted-through-pointer")
+			desc := fmt.Sprintf("json promoted through embedded pointer: target=%T doc=%s", a, doc)
+			switch {
+			case classOf(e) == "EPanic" || classOf(e) == "EDiverge":
+				repU.violate("C20", "unmarshal-panic", fmt.Sprintf("Unmarshal panicked: %v", e), desc)
+			case (e == nil) != (je == nil):
+				repU.violate("C20", "differs-from-encoding-json", fmt.Sprintf("sb: %v, encoding/json: %v", e, je), desc)
+			case e == nil && show(a) != show(b):
+				repU.violate("C20", "differs-from-encoding-json", fmt.Sprintf("sb gives %s, encoding/json gives %s", show(a), show(b)), desc)
+			}
+		}
+	}
+	// round trip of values with embedded pointers (C01): the embedded struct travels as a field named after its type
+	for _, v := range []WithEmbPtr{{}, {EmbPtrInner: &EmbPtrInner{X: 1, S: "s"}, Z: 3}, {Z: -1}} {
+		ts, e := marshalTokens(v, nil)
+		repU.Evaluations++
+		repU.count("c01:embedded-pointer-roundtrip")
+		desc := fmt.Sprintf("round trip with an embedded pointer: value=%s", show(v))
+		if e != nil {
+			repU.violate("C01", "marshal-error", fmt.Sprintf("%v", e), desc)
+			continue
+		}
+		var back WithEmbPtr
+		e = guard(func() error { return copyBudget(tokensFrom(ts), sb.Unmarshal(&back)) })
+		if e != nil {
+			repU.violate("C01", "roundtrip-error", fmt.Sprintf("%v", e), desc)
+		} else if show(back) != show(v) {
+			repU.violate("C01", "roundtrip-tokens", fmt.Sprintf("came back as %s", show(back)), desc)
 		}
 	}
 }
